@@ -566,6 +566,7 @@ static void c08_configure(char which)
     VM.store[0].fail_append_at = -1; VM.cam[0].fail_start_at = -1; VM.store[0].fail_start_at = -1;
     VM.cam[0].fail_shape_at = -1;
     if (which == 'K') { rt_select(&p, 0, "vcam0", "vstore0"); VM.cam[0].fail_shape_at = 1; } // like A, but the camera fails to report its shape before the second frame
+    if (which == 'O') { rt_select(&p, 0, "vcam1", "vstore0"); VM.fail_open[1] = 1; } // another camera, which cannot be opened (the stream's previous camera has been closed by then)
     if (which == 'G') { rt_select(&p, 0, "vcam0", "vstore0"); VM.cam[0].fail_start_at = vmock_cam(0)->starts; }     // like A, but the camera refuses its next start
     VM.cam[1].fail_start_at = -1; VM.store[0].fail_set = 0;
     if (which == 'J') { rt_select(&p, 0, "vcam0", "vstore0"); rt_select(&p, 1, "vcam1", "vstore1"); VM.cam[1].fail_start_at = vmock_cam(1)->starts; } // two streams; the second stream's camera refuses its next start (the first stream is already running then)
@@ -577,7 +578,7 @@ static void c08_configure(char which)
     if (which == 'D') rt_select(&p, 0, "vcam1", "vstore0"); // another camera, same storage
     if (which == '2') { rt_select(&p, 0, "vcam0", "vstore0"); rt_select(&p, 1, "vcam1", "vstore1"); }
     acquire_configure(RT, &p); // may legitimately report an error (e.g. no stream): the oracle is the device monitor
-    VM.cam[0].fail_set = 0; VM.store[0].fail_set = 0;
+    VM.cam[0].fail_set = 0; VM.store[0].fail_set = 0; VM.fail_open[1] = 0;
     rt_watch_devices(2);
 }
 static void c08_state_oracle(const char* after)
@@ -600,7 +601,7 @@ static void c08_run(void)
     for (const char* p = prog; *p; ++p) {
         char one[2] = { *p, 0 };
         switch (*p) {
-            case 'A': case 'B': case 'C': case 'D': case 'E': case 'F': case 'G': case 'H': case 'J': case 'K': case 'T': case 'R': case '2': case '0': c08_configure(*p); break;
+            case 'A': case 'B': case 'C': case 'D': case 'E': case 'F': case 'G': case 'H': case 'J': case 'K': case 'O': case 'T': case 'R': case '2': case '0': c08_configure(*p); break;
             case 's': acquire_start(RT); break;
             case 't': acquire_execute_trigger(RT, 0); break;
             case 'm': {
